@@ -545,7 +545,7 @@ class World(object):
 
 MARKER = b'<!--c12-document-built-handler-->'
 
-def make_world(sched, instrument=True, validator='lxml', monitor=True, pre=False, need='jxy'):
+def make_world(sched, instrument=True, validator='lxml', monitor=True, pre=False, need='jxy', fail_at=None):
     from spyne import Application, rpc, ServiceBase, Unicode, Integer, ComplexModel, Array, Fault
     from spyne.protocol.soap import Soap11
     from spyne.protocol.xml import XmlDocument
@@ -722,6 +722,28 @@ def make_world(sched, instrument=True, validator='lxml', monitor=True, pre=False
     for _w in [wsgi] + ([w.xwsgi] if 'x' in need else []):
         _w.doc.wsdl11.event_manager.add_listener('wsdl_document_built', _mark)
     # the documented way of pinning the URL: build the WSDL at start-up, after the transport exists
+    # a first build that fails at a chosen point (the requester gets 500; the lock is released); the next
+    # request builds again on the same builder and must serve the whole document
+    if fail_at:
+        b11 = wsgi.doc.wsdl11
+        state = {'armed': True}
+        def once(orig):
+            def f(*a, **k):
+                if state['armed']:
+                    state['armed'] = False
+                    raise RuntimeError('c12: injected failure of the WSDL build (%s)' % fail_at)
+                return orig(*a, **k)
+            return f
+        if fail_at == 'before':          # before the binding phase: the first port type
+            b11.add_port_type = once(b11.add_port_type)
+        elif fail_at == 'middle':        # in the binding phase
+            b11.add_bindings_for_methods = once(b11.add_bindings_for_methods)
+        else:                            # after it: a document_built listener
+            def boom(doc):
+                if state['armed']:
+                    state['armed'] = False
+                    raise RuntimeError('c12: injected failure of the WSDL build (after)')
+            b11.event_manager.add_listener('document_built', boom)
     w.pre = pre
     if pre:
         wsgi.doc.wsdl11.build_interface_document('http://%s/svc' % URL_HOST)
@@ -1043,7 +1065,7 @@ def unit_body(w, sched, r):
                     fs = fs.decode('ascii', 'replace')
                 return ['fault', errid(str(fs))]
         return f
-    if kind in ('idle', 'prebuilt'):
+    if kind in ('idle', 'prebuilt', 'failbuild'):
         return None
     # any other descriptor: a full WSGI request
     def f():
@@ -1110,9 +1132,10 @@ def run_once(reqs, chooser, lines=None, monitor=True):
     """reqs: list of request descriptors (thread i runs reqs[i]).  Returns a dict."""
     d0, d1 = oracle_docs()
     pre = any(r[0] == 'prebuilt' for r in reqs)
+    fail_at = ([r[1] for r in reqs if r[0] == 'failbuild'] or [None])[0]
     sched = Sched(chooser, line_funcs=lines)
-    w = make_world(sched, monitor=monitor, pre=pre, need=needs(reqs))
-    w.docnames = {hashlib.md5(d0).hexdigest(): 0, hashlib.md5(d1).hexdigest(): 1}
+    w = make_world(sched, monitor=monitor, pre=pre, need=needs(reqs), fail_at=fail_at)
+    w.docnames = {hashlib.md5(d1).hexdigest(): 1, hashlib.md5(d0).hexdigest(): 0}   # equal bytes: document 0
     patch_update(sched)
     from spyne.util.memo import memoize
     saved_locks = [(m, m.lock) for m in memoize.registry if hasattr(m, 'lock')]
@@ -1129,7 +1152,7 @@ def run_once(reqs, chooser, lines=None, monitor=True):
         unpatch_update()
         for m, lk in saved_locks:
             m.lock = lk
-    return {'reqs': reqs, 'pre': pre, 'results': results, 'trace': list(sched.trace), 'decisions': sched.decisions,
+    return {'reqs': reqs, 'pre': pre, 'fail_at': fail_at, 'results': results, 'trace': list(sched.trace), 'decisions': sched.decisions,
             'builds': sched.builds, 'abort': sched.abort, 'writes': sorted(set(sched.shared_writes)),
             'diverged': getattr(chooser, 'diverged', False)}
 
@@ -1206,6 +1229,7 @@ def lines_of(name):
 ALLOWED_WRITES = {
     ('Wsdl11', '_Wsdl11__wsdl'), ('Wsdl11', 'root_elt'), ('Wsdl11', 'root_tree'), ('Wsdl11', 'schema_dict'),
     ('Wsdl11', 'url'), ('Wsdl11', 'service_elt'), ('Wsdl11', 'namespaces'), ('Wsdl11', 'complex_types'),
+    ('Wsdl11', 'port_type_dict'), ('Wsdl11', 'binding_dict'), ('Wsdl11', 'service_elt_dict'),   # emptied by every build
     ('WsgiApplication', '_wsdl'),    # the un-instrumented applications: the lock-guarded lazy document itself
 }
 
@@ -1229,7 +1253,7 @@ def judge(check, run):
         rep = {'reqs': reqs, 'lines': run.get('lines'), 'decisions': [d[1] for d in run['decisions']],
                'n_switch_points': len(run['decisions']),
                'observed': {str(k): v for k, v in results.items()},
-               'expected_alone': {str(i): alone(r) for i, r in enumerate(reqs) if r[0] not in ('idle', 'prebuilt')},
+               'expected_alone': {str(i): alone(r) for i, r in enumerate(reqs) if r[0] not in ('idle', 'prebuilt', 'failbuild')},
                'builds': run['builds'], 'access_trace': run['trace'][:400]}
         if extra:
             rep.update(extra)
@@ -1242,7 +1266,8 @@ def judge(check, run):
         else:
             check.mismatch('scheduler', 'run aborted: %s (requests %r)' % (run['abort'], reqs))
         return fails
-    if run['builds'] > 1:
+    failing = run.get('fail_at')
+    if run['builds'] > (2 if failing else 1):
         fail('C12|wsdl|built-%d-times' % run['builds'],
              'build_interface_document executed %d times for one WsgiApplication' % run['builds'])
     if run.get('pre') and run['builds'] > 0:
@@ -1250,7 +1275,7 @@ def judge(check, run):
              'the WSDL had been built at start-up (wsgi_app.doc.wsdl11.build_interface_document(url)); a ?wsdl '
              'request built it again (%d more executions) on the already filled builder' % run['builds'])
     for i, r in enumerate(reqs):
-        if r[0] in ('idle', 'prebuilt'):
+        if r[0] in ('idle', 'prebuilt', 'failbuild'):
             continue
         res = results.get(i)
         exp = alone(r)
@@ -1261,6 +1286,24 @@ def judge(check, run):
                  'request %r raised %s under concurrency (alone: %r): %s' % (r, res[1], exp, res[2][-300:]))
             continue
         got = res[1]
+        if failing and r[0] == 'wsdl':
+            # one requester ran the build that was made to fail: it answers 500; everybody else - in particular
+            # the request that builds again on the same builder - must be served the whole document
+            if got[1].startswith('500'):
+                n500 = sum(1 for j, q in enumerate(reqs) if q[0] == 'wsdl' and results.get(j, (0,))[0] == 'ok'
+                           and results[j][1][1].startswith('500'))
+                if n500 > 1:
+                    fail('C12|wsdl|more-than-one-500-after-one-failed-build',
+                         '%d ?wsdl requesters answered 500 although only one build was made to fail' % n500)
+                continue
+            if got[:4] != exp[:4] or not got[5]:
+                fail('C12|wsdl|document-after-failed-build-differs',
+                     'the first build of the WSDL failed (%s the binding phase) and its requester got 500; ?wsdl '
+                     'requester %d, served by a later build on the same builder, got status %s and %s instead of '
+                     'the whole document of a never-failed application'
+                     % ({'before': 'before', 'middle': 'in the middle of', 'after': 'after'}[failing], i, got[1],
+                        'a different document (md5 %s)' % got[3]))
+            continue
         if r[0] == 'sort':
             # independent of the implementation: the orders were assigned by the harness, so the list every
             # caller must get is known - all the fields the class has NOW, in the declared order
@@ -1444,6 +1487,9 @@ HISTORIES = [
     [['ytags', ['a']], ['ytags', ['a']]],
     [['prebuilt'], ['wsdl'], ['wsdl']],
     [['prebuilt'], ['wsdl'], ['echo', 'a', 1], ['wsdl']],
+    [['failbuild', 'before'], ['wsdl'], ['wsdl']],
+    [['failbuild', 'middle'], ['wsdl'], ['wsdl']],
+    [['failbuild', 'after'], ['wsdl'], ['wsdl'], ['wsdl']],
     [['box', 'ann', 1], ['wsdl'], ['box', 'ann', 1]],
     [['count', 'ann', [1]], ['box', 'bob', 2], ['tag', 'p']],
     [['jbox', 'ann', 1], ['jsum', 'bob', [2]], ['jbox', 'ann', 1]],
@@ -1457,7 +1503,7 @@ def histories(check, tier):
     return sc
 
 def orders(check, reqs):
-    act = [i for i, r in enumerate(reqs) if r[0] not in ('idle', 'prebuilt')]
+    act = [i for i, r in enumerate(reqs) if r[0] not in ('idle', 'prebuilt', 'failbuild')]
     if len(act) <= 3:
         return [list(p) for p in itertools.permutations(act)]
     out = [act, act[::-1]]
@@ -1524,7 +1570,7 @@ def http_scenarios(check, tier):
         [['entity', 1], ['invalid', 2], ['echo', 'a', 1]],
         [['jbox', 'ann', 2], ['jbox', 'bob', 1]],
         [['jsum', 'ann', [1, 2]], ['jsq', -3], ['jbadtype', 4]],
-    ] + [list(h) for h in HISTORIES[:9]]
+    ] + [list(h) for h in HISTORIES[:12]]
     n = 4 if tier == 'quick' else 40
     for i in range(n):
         k = rng.randint(2, 4)
@@ -1544,7 +1590,7 @@ def handle(check, run, cases):
     fails = judge(check, run)
     tr = tuple(run['trace'])
     check.count((json.dumps(run['reqs']), tr))
-    if not run['abort']:
+    if not run['abort'] and not run.get('fail_at'):    # a failing build is outside the model
         cases.append((coq_case(run), 'reqs=%s lines=%s decisions=%s' % (
             json.dumps(run['reqs']), run.get('lines'), ''.join(str(d[1]) for d in run['decisions'])[:200])))
     return fails
@@ -1681,7 +1727,7 @@ def run(check):
     phase('sequential')
     # 3. end-to-end WSGI requests (SOAP calls, faults, validation failures, ?wsdl) at line granularity
     for reqs in http_scenarios(check, tier):
-        budget = 22 if quick else 120
+        budget = 18 if quick else 120
         for r in explore(check, reqs, LINE_FUNCS_SHARED, 1 if quick else 2, budget):
             account(r, 'http')
             handle(check, r, cases)
